@@ -71,6 +71,16 @@ CHECKS = {
                 'indexOf; tag units are sanitised and SI-checked before storage. Floating-point exactness, composition a->b->c as a '
                 'numeric identity and selection invariance are not decided.',
     },
+    'C19': {
+        'technique': 'static analysis: rule-table extraction from the validate overloads (level/getter/predicate/parent), channel '
+                     'agreement of must/should/could and Result, loop-nest completeness of File::validate, CFG rule for sticky loop '
+                     'verdicts',
+        'text': 'Decides the soundness/completeness skeleton of the validator under the assumption that predicates and getters are '
+                'correct: all 15 rules named by the property exist with the right level (hard = error, soft = warning), message '
+                'channels are not crossed, File::validate reaches every entity kind (features, nested sources/sections, properties) '
+                'and keeps every result, and no predicate loop lets a later element overwrite an untested verdict. The arithmetic of '
+                'the predicates themselves (isScalable, sizes) is not decided.',
+    },
 }
 
 _NYI = 'check not built yet in this session (planned in DESIGN.md); not claimed until its rule runs and is validated'
